@@ -249,6 +249,20 @@ def corpus():
       edit(mm, MMQ + 'greedy_search', lambda n: isinstance(n, ast.Compare) and norm(n) == 'current_score > TBRMMScore(current_design)', lambda s, n: s.replace('>', '>=', 1)))
   add('C09', 'aggregate_geo_share returns a Python float', 'bad', 'R1c/division', edit(md, 'TBRMMData.aggregate_geo_share', lambda n: isinstance(n, ast.Return),
                                                                                        lambda s, n: 'return float(self._array_geo_share[list(geo_indices)].sum())'))
+  add('C09', 'revert fix: placeholder score evaluated', 'bad', 'R1f/optional-deref',
+      edit(mm, MMQ + 'greedy_search', lambda n: isinstance(n, ast.Call) and norm(n.func) == 'tbrmmscore.Scoring', lambda s, n: s.replace('tbrmmscore.Scoring(', 'tmp_score.score._replace(', 1)))
+  add('C09', 'None guard of required_impact removed', 'bad', 'R1f/optional-deref',
+      delete_stmt(dg, DG + 'required_impact', lambda n: isinstance(n, ast.If) and norm(n.test) == 'corr is None'))
+  add('C09', 'TBRMMScore no longer rejects a missing control series', 'bad', 'R1f/optional-deref',
+      delete_stmt(sc, 'TBRMMScore.__post_init__', lambda n: isinstance(n, ast.If) and norm(n.test) == 'self.diag.x is None'))
+  add('C09', 'x-None guard of bbtest removed', 'bad', 'R1f/optional-deref', delete_stmt(dg, DG + 'bbtest', lambda n: isinstance(n, ast.If) and norm(n.test) == 'self._x is None'))
+  add('C09', 'loop guard without the pending-matching flag', 'bad', 'R1d/dict-keys',
+      edit(mm, MMQ + 'greedy_search', lambda n: isinstance(n, ast.While), lambda s, n: s.replace('while (k < max_treatment_size) | (needs_matching):', 'while k < max_treatment_size:', 1)))
+  add('C09', 'pop without default', 'bad', 'R1d/dict-keys', edit(mm, MMQ + 'greedy_search', lambda n: isinstance(n, ast.Call) and norm(n) == 'group_star_ctl.pop(kappa_0, None)', 'group_star_ctl.pop(kappa_0)'))
+  add('C09', 'next treatment group stored after the counter advanced', 'bad', 'R1d/dict-keys',
+      edit(mm, MMQ + 'greedy_search', lambda n: isinstance(n, ast.Assign) and norm(n.targets[0]) == 'group_star_trt[k + 1]', lambda s, n: 'group_star_trt[k + 2] = group_trt'))
+  add('C09', 'control table read while matching is pending', 'bad', 'R1d/dict-keys',
+      edit(mm, MMQ + 'greedy_search', lambda n: isinstance(n, ast.Assign) and norm(n.targets[0]) == 'r_control', lambda s, n: s.replace('group_ctl | group_star_trt[k]', 'group_star_ctl[k] | group_star_trt[k]')))
   add('C09', 'benign: guard written as len(...) == 0', 'benign', None,
       edit(mm, MMQ + 'design_within_constraints', lambda n: isinstance(n, ast.BoolOp) and norm(n) == 'not treatment_geos or not control_geos',
            lambda s, n: 'len(treatment_geos) == 0 or len(control_geos) == 0'))
